@@ -6,6 +6,8 @@ export CARGO_NET_OFFLINE=true
 mkdir -p build evidence
 cargo build --offline --bins --manifest-path /repo/Cargo.toml --target-dir build/repo-target
 (cd harness && cargo build --offline)
+# the same binaries with the verification hooks compiled in (event traces of the xargs loop)
+RUSTFLAGS="--cfg findutils_verif" cargo build --offline --bins --manifest-path /repo/Cargo.toml --target-dir build/repo-target-verif
 # parse every specification module once (SANY), so that a broken spec is a setup failure
 for f in spec/*.tla spec/mc/*.tla spec/trace/*.tla; do
   [ -f "$f" ] || continue
